@@ -66,6 +66,7 @@ class VF_Base {
 %s
     [EmbeddedInstance ("VF_Other")] string EI;
     [EmbeddedObject] string EO;
+    [EmbeddedInstance ("VF_Other")] string EIA[];
 %s
 };
 
@@ -159,6 +160,13 @@ def build(rng, n_inst=None, namespaces=None, url='http://vf-mock:5988'):
                     ('N', Uint32(7)), ('S', cimgen.string(rng))])
                 props.append(CIMProperty('EI', emb,
                                          embedded_object='instance'))
+            if rng.random() < 0.3:
+                props.append(CIMProperty(
+                    'EIA', [CIMInstance('VF_Other', properties=[
+                        ('N', Uint32(j)), ('S', cimgen.string(rng))])
+                        for j in range(rng.choice([0, 0, 1, 2]))],
+                    type='string', is_array=True,
+                    embedded_object='instance'))
             if cls == 'VF_Sub' and rng.random() < 0.7:
                 props.append(('Extra', cimgen.string(rng)))
             inst = CIMInstance(cls, properties=props)
